@@ -916,6 +916,78 @@ def _alg_function(fid, alg, lam_fid, it_ty, el_ty, loc, clos_ty):
             'elems': {str(i): n for i, n in el.items()}, 'blocks': blocks, 'entry': 8, 'exit': 0, 'synthetic': True}
 
 
+def _ref_path(elems, n, depth=0):
+    """inline copy of the object a reference local is bound to, when that object has one identity for the whole function:
+    a member chain of this / of a parameter / of an object local, or std::get<k>() of such a chain; else None"""
+    if n is None or depth > 8:
+        return None
+    k = n.get('k')
+    if k in ('ImplicitCastExpr', 'ParenExpr', 'MaterializeTemporaryExpr', 'ExprWithCleanups'):
+        kids = n.get('ch') or n.get('args') or []
+        if len(kids) != 1:
+            return None
+        c = kids[0]
+        return _ref_path(elems, elems.get(str(c)) if isinstance(c, int) else c, depth + 1)
+    if k == 'CallExpr' and n.get('cq') == 'std::get' and len(n.get('args') or []) == 1:
+        c = n['args'][0]
+        base = _ref_path(elems, elems.get(str(c)) if isinstance(c, int) else c, depth + 1)
+        if base is None:
+            return None
+        m = {kk: vv for kk, vv in n.items() if kk not in ('ch', 'args')}
+        m['args'] = [base]
+        m['ch'] = [base]
+        return m
+    pth = _object_path(elems, n, depth)
+    if pth is None:
+        return None
+    for d in _all_dicts(pth):
+        if d.get('k') == 'UnaryOperator':
+            return None           # *p: p may point elsewhere later
+        if d.get('k') == 'DeclRefExpr' and '*' in (d.get('ty') or ''):
+            return None
+    return pth
+
+
+def desugar_ref_locals(functions_raw, known=None):
+    """`T& x = OBJ;` with OBJ an object that has one identity for the whole function (a member chain, std::get<k> of one):
+    a reference cannot be re-seated, so x *is* OBJ - every use of x is rewritten into OBJ, the form the rules know.
+    Reference locals of the pinned tree (baseline) are left as they are."""
+    known = known or {}
+    n_rw = 0
+    for fid, r in functions_raw.items():
+        elems = r.get('elems', {})
+        if not elems:
+            continue
+        kn = set(known.get(r.get('qname'), []))
+        table = {}
+        for n in list(elems.values()):
+            if n.get('k') != 'DeclStmt':
+                continue
+            for v in n.get('vars', []):
+                ty = v.get('type') or ''
+                if v.get('bindings') or 'init' not in v or not ty.rstrip().endswith('&') or ty.rstrip().endswith('&&'):
+                    continue
+                if (v.get('name') or '').startswith('__') or v.get('name') in kn or not v.get('id'):
+                    continue
+                ini = v['init']
+                ini = elems.get(str(ini)) if isinstance(ini, int) else ini
+                path = _ref_path(elems, ini)
+                if path is not None:
+                    table[v['id']] = path
+        if not table:
+            continue
+        for n in elems.values():
+            for d in _all_dicts(n):
+                if d.get('k') == 'DeclRefExpr' and d.get('dk') == 'var' and d.get('id') in table:
+                    keep = {'loc': d.get('loc')}
+                    pcopy = copy.deepcopy(table[d['id']])
+                    d.clear()
+                    d.update(pcopy)
+                    d.update({k_: v_ for k_, v_ in keep.items() if v_ is not None})
+                    n_rw += 1
+    return n_rw
+
+
 def apply(raw, lambdas=False):
     """Transform the raw fact base in place; returns the log."""
     if not os.path.exists(BASELINE):
@@ -928,6 +1000,8 @@ def apply(raw, lambdas=False):
     inl = Inliner(raw['functions'], baseline)
     inl.splice_all(inl.new_named())
     desugar_bindings(raw['functions'], base.get('decompositions', {}))
+    if 'ref_locals' in base:
+        desugar_ref_locals(raw['functions'], base['ref_locals'])
     if lambdas:
         # closures: those of the pinned tree are known to the rules as closures (by defining function and variable
         # name; a defining function with as many in-place closures as on the pinned tree has only been renamed in);
